@@ -101,13 +101,25 @@ Definition finding_rows (tbl : list (string * list prot)) (al : list allow) (row
 
 (* the mutable variables the table knows about must all be covered by the discipline table or be
    among the variables the allow-list excuses *)
+Definition ref_allowed (g : gvar) : bool :=
+  existsb (fun p => String.eqb (fst p) (g_type g)) ref_type_allow
+  || existsb (fun p => String.eqb (fst p) (g_name g)) ref_var_allow.
+
 Definition var_covered (tbl : list (string * list prot)) (al : list allow) (g : gvar) : bool :=
   match g_kind g with
   | GSync _ => true
   | GMutable =>
       negb (is_nil (prots_of tbl (g_name g)))
       || existsb (fun a => has_prefix (g_name g) (al_var a)) al
+  | GRefUsed _ => ref_allowed g
   end.
+
+(* no stale by-name excuses: each names a variable the table lists as GRefUsed *)
+Definition ref_allow_used (vars : list gvar) (p : string * string) : bool :=
+  existsb (fun g => String.eqb (g_name g) (fst p) && match g_kind g with GRefUsed _ => true | _ => false end) vars.
+
+Definition vars_ok (tbl : list (string * list prot)) (al : list allow) (vars : list gvar) : bool :=
+  forallb (var_covered tbl al) vars && forallb (ref_allow_used vars) ref_var_allow.
 
 (* ---------- the copy discipline of the process-global default transformer configuration (Gen/DeepCopy.v) ---------- *)
 Definition dc_is_deep (k : dckind) : bool := match k with DCDeep => true | _ => false end.
